@@ -100,6 +100,49 @@ FORMS = {
     # branch) on trees that let it through, a PyXFormError once characters are validated
     "surrogate": {"dict": DICT_SURROGATE, "expect": ("unencodable", "early", "late"), "lib_only": True},
 }
+EXT_NAMES = ["dallas", "tulsa", "austin"]
+
+
+def container_kinds():
+    """the container kinds a survey row can open, from the code's own table (aliases.control: group / repeat / loop)"""
+    from pyxform import aliases
+
+    return list(dict.fromkeys(aliases.control.values()))
+
+
+def ext_form_md(chain):
+    """A form whose only select_one_external sits inside the given chain of containers (outermost first)."""
+    rows = ["| | select_one states | state | State | |"]
+    for i, kind in enumerate(chain):
+        begin = f"begin {kind}" + (" over states" if kind == "loop" else "")
+        rows.append(f"| | {begin} | sec{i} | Section {i} | |")
+    rows.append("| | select_one_external cities | city | City | state=${state} |")
+    for i, kind in reversed(list(enumerate(chain))):
+        rows.append(f"| | end {kind} | sec{i} | | |")
+    return ("| survey |\n| | type | name | label | choice_filter |\n" + "\n".join(rows) + "\n"
+            "| choices |\n| | list_name | name | label |\n| | states | tx | Texas |\n| | states | ok | Oklahoma |\n"
+            "| external_choices |\n| | list_name | name | label | state |\n"
+            + "".join(f"| | cities | {n} | {n.title()} | tx |\n" for n in EXT_NAMES))
+
+
+def add_ext_forms(rng):
+    """external select at top level, in every container kind, and in nested mixes of them"""
+    kinds = container_kinds()
+    chains = [[]] + [[k] for k in kinds]
+    for _ in range(3):
+        chains.append([rng.choice(kinds) for _ in range(rng.randint(2, 3))])
+    for k in kinds:  # each kind also as the innermost container of a nesting
+        chains.append([rng.choice(kinds), k])
+    from pyxform import constants
+
+    for ch in chains:
+        if constants.LOOP in ch:
+            # sections below a loop are replicated per choice and rejected as duplicates: a loop can only be innermost
+            ch = [k for k in ch if k != constants.LOOP] + [constants.LOOP]
+        fid = "ext:" + ("/".join(ch) or "top")
+        FORMS[fid] = {"md": ext_form_md(ch), "expect": ("ok", "early", "late"), "ext": True, "few_outcomes": True}
+
+
 LANG_WARNING_PREFIX = "The following language declarations do not contain valid machine-readable codes"
 
 
@@ -121,7 +164,7 @@ def abstract_form(sb, fid):
         if k != f["expect"] and k not in f["expect"]:
             raise vcore.Infra(f"form {fid}: expected kind {f['expect']}, the code now gives {k} ({a['msg'][:100]})")
         return {"k": k, "msg": a["msg"]}
-    if f["expect"] != "ok" or b["raised"]:
+    if (f["expect"] != "ok" and "ok" not in f["expect"]) or b["raised"]:
         raise vcore.Infra(f"form {fid}: expected {f['expect']}, baseline conversion succeeded")
     w = a["ret"]["warnings"]
     post = [x for x in w if x.startswith(LANG_WARNING_PREFIX)]
@@ -304,6 +347,70 @@ def args_case(ctx, skip_given, odk, enketo):
     ctx.record(case, True)
 
 
+# ----------------------------------------------------------------------------- has_external_choices
+
+def to_wire(v):
+    """order-preserving tagged form of harness/…/OpsJVal.ofWire"""
+    if v is None or isinstance(v, (bool, str)):
+        return v
+    if isinstance(v, int):
+        return {"i": str(v)}
+    if isinstance(v, (list, tuple)):
+        return {"a": [to_wire(x) for x in v]}
+    if isinstance(v, dict):
+        return {"o": [[str(k), to_wire(x)] for k, x in v.items()]}
+    return str(v)
+
+
+def gen_json(rng, depth=0):
+    r = rng.random()
+    if depth > 3 or r < 0.25:
+        return rng.choice([None, True, 3, "text", "select one", "select one external", "select one external cities", "group", ""])
+    if r < 0.5:
+        return [gen_json(rng, depth + 1) for _ in range(rng.randint(0, 3))]
+    d = {}
+    for _ in range(rng.randint(0, 4)):
+        k = rng.choice(["type", "name", "children", "choices", "bind", "itemset", "label", "Type", "type "])
+        d[k] = gen_json(rng, depth + 1)
+    if rng.random() < 0.5:
+        d["type"] = rng.choice(["group", "repeat", "loop", "survey", "text", "select one external", "select one external c", "select one"])
+    return d
+
+
+def hasext_case(ctx, v, label):
+    from pyxform.utils import has_external_choices
+
+    got = bool(has_external_choices(v))
+    m = ctx.driver.call("c18.hasext", v=to_wire(v))
+    if m != got:
+        ctx.mismatch("utils.has_external_choices vs Validator.hasExt", {"kind": "hasext", "label": label}, got, m)
+    ctx.count("hasext:" + str(got))
+    return got
+
+
+def hasext_cases(ctx, sb, rng):
+    """utils.has_external_choices vs the Lean tree walk: on the JSON intermediate form of every form of the matrix,
+    and on generated JSON values with `type` keys at every depth"""
+    from pyxform.xls2xform import convert
+
+    for fid, f in FORMS.items():
+        if "md" not in f or f.get("fault"):
+            continue
+        try:
+            r = convert(xlsform=f["md"], file_type=".md")
+        except Exception:  # noqa: BLE001  (conversion errors are another case's business)
+            continue
+        got = hasext_case(ctx, r._pyxform, fid)
+        ctx.record({"kind": "hasext", "form": fid}, True)
+        if f.get("ext") and not got:
+            ctx.fail(Failure("has-external-choices-misses", "a select_one_external below " + fid + " is not found in the JSON form",
+                             {"kind": "hasext", "form": fid}))
+    for _ in range(ctx.pick(300, 3000)):
+        v = gen_json(rng)
+        hasext_case(ctx, v, "generated")
+        ctx.record({"kind": "hasext", "v": v}, True)
+
+
 # ----------------------------------------------------------------------------- one run of the matrix
 
 def decode_like_util(raw: bytes) -> str:
@@ -459,6 +566,10 @@ def run_oracle(case, obs, af):
                     fails.append(("accept-stderr-not-surfaced", "validator stderr missing from warnings", {"warnings": ws}))
                 if obs["ret"]["xform"] != want_xform:
                     fails.append(("file-differs-from-library", "validate=True changed the XForm text", {}))
+                it = obs["ret"]["itemsets"]
+                if FORMS[case["form"]].get("ext") and (it is None or not all(n in it for n in EXT_NAMES)):
+                    fails.append(("itemsets-missing-external-choices", "the form has a select_one_external and an external_choices sheet, "
+                                  "yet convert().itemsets does not carry its rows", {"got": it}))
         else:
             if mode.get("json"):
                 j = obs["json"] or {}
@@ -478,6 +589,9 @@ def run_oracle(case, obs, af):
                               {"got": None if out_now is None else out_now[:200]}))
             items_key = out_key.rsplit("/", 1)[0] + "/itemsets.csv"
             items_now = obs["files"].get(items_key)
+            if FORMS[case["form"]].get("ext") and (items_now is None or not all(n in items_now for n in EXT_NAMES)):
+                fails.append(("itemsets-missing-external-choices", "the form has a select_one_external and an external_choices sheet, "
+                              "yet no itemsets.csv with its rows lies beside the XForm", {"got": items_now}))
             if af["itemsets"] is not None and items_now != af["itemsets"]:
                 fails.append(("itemsets-not-beside", "itemsets.csv missing or different from convert().itemsets", {"got": items_now}))
             if af["itemsets"] is None and items_now is not None and items_key != out_key:
@@ -561,7 +675,7 @@ def explore(ctx, factor, bs):
             for enk in (False, True):
                 args_case(ctx, skip, odk, enk)
     # (b) cleaner, function level
-    n_clean = ctx.pick(2500, 120000) * min(factor, 3)
+    n_clean = ctx.pick(2000, 120000) * min(factor, 3)
     for i in range(n_clean):
         cleaner_case(ctx, gen_stderr(rng, p_odd=0.0))
     # directed shapes: marker assembled by deleting exception names (C18-F1, repaired); guard of cleaner_paths_to_refs (C18-F2)
@@ -577,7 +691,9 @@ def explore(ctx, factor, bs):
         cleaner_case(ctx, gen_stderr(rng, p_odd=0.5, directed=False))
     # (c) the matrix
     with c18_env.Sandbox() as sb:
+        add_ext_forms(rng)
         forms = {fid: abstract_form(sb, fid) for fid in FORMS}
+        hasext_cases(ctx, sb, rng)
         ctx.notes["form_kinds"] = {fid: forms[fid]["k"] for fid in forms}
         ctx.notes["timeouts"] = (f"the watchdog path is exercised with {c18_env.SHORT_TIMEOUT}s instead of the literal "
                                  f"100 s (wrapper around the call in check_xform, 'sleep' outcome only); the literal is tied by the table c18ValidatorTimeout")
@@ -588,8 +704,11 @@ def explore(ctx, factor, bs):
                     continue  # each validating run costs SHORT_TIMEOUT
                 if outcome.get("few_forms") and fid not in ("plain", "warn"):
                     continue
-                if f.get("fault") and outcome["tag"] not in ("exit0-silent", "exit>0-named-paths", "java-absent", "killed"):
-                    continue  # the validator is never reached behind a failed write: a few environments suffice
+                if f.get("few_outcomes") and outcome is not outs[0] and outcome is not outs[1]:
+                    continue
+                limited = f.get("fault") or fid in ("early", "late", "lang")
+                if limited and outcome["tag"] not in ("exit0-silent", "exit0-stderr", "exit>0-named-paths", "java-absent", "killed"):
+                    continue  # validator never reached (failed write, conversion error) / same path as `warn`: a few environments suffice
                 for mode in modes(rng):
                     if f.get("lib_only"):
                         if mode["kind"] != "lib":
@@ -608,10 +727,23 @@ def replay(ctx, payload, bs):
     before = len(ctx.failures)
     if case["kind"] == "clean":
         cleaner_case(ctx, case["text"])
+    elif case["kind"] == "hasext":
+        if "form" in case:
+            from pyxform.xls2xform import convert
+
+            ch = [] if case["form"] == "ext:top" else case["form"][4:].split("/")
+            md = ext_form_md(ch) if case["form"].startswith("ext:") else FORMS[case["form"]]["md"]
+            if not hasext_case(ctx, convert(xlsform=md, file_type=".md")._pyxform, case["form"]) and case["form"].startswith("ext:"):
+                ctx.fail(Failure("has-external-choices-misses", case["form"], case))
+        else:
+            hasext_case(ctx, case["v"], "replay")
     elif case["kind"] == "args":
         args_case(ctx, case["skip"], case["odk"], case["enketo"])
     else:
         with c18_env.Sandbox() as sb:
+            if case["form"] not in FORMS and case["form"].startswith("ext:"):
+                ch = [] if case["form"] == "ext:top" else case["form"][4:].split("/")
+                FORMS[case["form"]] = {"md": ext_form_md(ch), "expect": ("ok", "early", "late"), "ext": True, "few_outcomes": True}
             forms = {case["form"]: abstract_form(sb, case["form"])}
             run_case(ctx, sb, forms, case["form"], case["outcome"], case["mode"], case["pre"])
     return len(ctx.failures) == before and not ctx.mismatches
